@@ -255,6 +255,9 @@ pub fn run(ctx: &Ctx) -> i32 {
     }
     parts.push(run_pbt(ctx, &Explicit, ctx.n(100_000, 1_000_000)));
     parts.push(run_pbt(ctx, &Chained, ctx.n(60_000, 1_500_000)));
+    if ctx.thorough() {
+        parts.push(fuzz_part(ctx, "c07_lex_update", &Chained, 400_000, 1500));
+    }
     finish(
         ctx,
         parts,
